@@ -51,6 +51,21 @@ let ipq_res_str = function
   | IRLen n -> Printf.sprintf "l,%d" (int_of_nat n)
   | IRPanic -> "PANIC"
 
+(* ---- mailbox queue (sequential) ---- *)
+let q_op_of tok =
+  match split_on ',' tok with
+  | ["u"; v] -> QPush (z_of_int (ios v))
+  | ["o"] -> QPop | ["h"] -> QPopHold | ["r"] -> QRelease | ["c"] -> QClose | ["l"] -> QLen | ["z"] -> QIsClosed
+  | _ -> failwith ("bad q op " ^ tok)
+let q_res_str = function
+  | QRPush PushOk -> "ok" | QRPush PushFull -> "full" | QRPush PushClosed -> "closed"
+  | QRPop (PopVal v) -> "v," ^ string_of_int (int_of_z v)
+  | QRPop PopEmpty -> "empty" | QRPop PopClosed -> "closed" | QRPop PopBusy -> "busy"
+  | QRRel b -> if b then "rel" else "none"
+  | QRUnit -> "-"
+  | QRLen n -> "l," ^ string_of_int (int_of_nat n)
+  | QRBool b -> if b then "z,1" else "z,0"
+
 (* ---- sinks ---- *)
 let sink_op_of tok =
   match split_on ',' tok with
@@ -173,6 +188,18 @@ let run_case line =
       String.concat " " (List.map pq_res_str (x_pq_run (List.map pq_op_of ops)))
   | "ipq" :: ops ->
       String.concat " " (List.map ipq_res_str (x_ipq_run (List.map ipq_op_of ops)))
+  | "q" :: cap :: ops ->
+      String.concat " " (List.map q_res_str (x_q_run (nat_of_int (ios cap)) (List.map q_op_of ops)))
+  | "sl" :: n :: a0 :: b0 :: "V" :: k :: rest ->
+      let k = ios k in
+      let rec take i l acc = if i = 0 then (List.rev acc, l) else
+        (match l with a :: b :: r -> take (i - 1) r ((z_of_int (ios a), z_of_int (ios b)) :: acc) | _ -> failwith "sl vals") in
+      let (vals, rest) = take k rest [] in
+      (match rest with
+       | "S" :: sched ->
+           let outs = x_sl_run (z_of_int (ios a0), z_of_int (ios b0)) vals (nat_of_int (ios n)) (List.map (fun x -> nat_of_int (ios x)) sched) in
+           String.concat ";" (List.map (fun l -> String.concat "," (List.map (fun (a, b) -> Printf.sprintf "%d:%d" (int_of_z a) (int_of_z b)) l)) outs)
+       | _ -> failwith "sl sched")
   | "sim" :: ws -> run_sim ws
   | "ebuf" :: cap :: o :: ops ->
       String.concat " " (List.map optz_str
